@@ -239,6 +239,11 @@ def base_specs(quick):
     out.append(("cas2", {"decl": dcas, "exprs": [E("T", ["m", "n"], times(T("A", "k", "m"), T("B", "k", "n"))),
                                                  E("Z", ["n", "m"], times(T("A", "k", "m"), T("B", "k", "n")))],
                          "mapping": {"loop-order": {"T": ["K", "M", "N"], "Z": ["K", "N", "M"]}}}, [{"K": 2, "M": 2, "N": 1}]))
+    # a dynamic partition inside outer loops that is hoisted out of the next inner loop
+    dj3 = {"A": ["K", "M"], "B": ["K", "J"], "C": ["J"], "Z": ["M"]}
+    out.append(("mm3j", {"decl": dj3, "exprs": [E("Z", ["m"], times(T("A", "k", "m"), T("B", "k", "j"), T("C", "j")))],
+                         "mapping": {"partitioning": {"Z": {"J": ["uniform_occupancy(B.2)"]}}, "loop-order": {"Z": ["K", "M", "J1", "J0"]}}},
+                [{"K": 2, "M": 1, "J": 3}]))
     d3 = {"A": ["M"], "B": ["M"], "Z": ["M"]}
     out.append(("sum", {"decl": d3, "exprs": [E("Z", ["m"], times(T("A", "m")), times(T("B", "m")))], "mapping": {"loop-order": {"Z": ["M"]}}}, [{"M": 3}]))
     # gamma-like cascade: take, then a reduction with a swizzled intermediate (merger)
